@@ -103,7 +103,7 @@ def random_streams(seed: int, n: int, max_depth: int = 4):
             return [rng.choice(["+", "-"])] + expr(d + 1)
         op = rng.choice(binops)
         if op in ("**", "^"):
-            return ["("] + expr(d + 1) + [")", op, rng.choice(["1", "2", "2", "3"] if False else ["1", "2", "2"])]
+            return ["("] + expr(d + 1) + [")", op, rng.choice(["1", "2", "2", "3"])]
         return expr(d + 1) + [op] + expr(d + 1)
 
     out = []
